@@ -384,18 +384,62 @@ def gen_history(tier, rng):
     return ops
 
 
-def gen_ndv(tier, rng):
-    """create_with_ndv is not modelled (libm); the implementation alone is checked against the
-    property's size rule and the no-false-negative rule."""
-    out = []
-    for _ in range(60 if tier == "thorough" else 15):
-        r = rng.random()
-        if r < 0.25:
-            ndv, fpp = rng.choice([0, -1, -2**63, 5]), rng.choice([0.0, 1.0, -0.5, 2.0, 0.01])
-            if ndv > 0 and 0.0 < fpp < 1.0:
-                fpp = 1.0
+def ndv_expect(ndv, fpp):
+    """What create_with_ndv must return: None = NULL (invalid arguments, a size that does not fit size_t or that
+    cannot be allocated), else the byte count before rounding to blocks (formula of the function's comment)."""
+    if not (ndv > 0) or not (fpp > 0.0) or not (fpp < 1.0):      # NaN fails every comparison: invalid
+        return None
+    by = -float(ndv) * math.log(fpp) / 0.4804530139182014246671025263266649717305529515945455 / 8.0
+    if not (by < float(HUGE)):
+        return None
+    return int(by) + 1
+
+
+NDV_GRID = [0, 1, 2, -1, -2**63, 2**63 - 1, 2**62, 2**50, 1000]
+FPP_GRID = [0.0, -0.0, 5e-324, 1e-300, 1e-9, 0.01, 0.5, 1.0 - 2**-53, 1.0, 1.0 + 2**-52, -1e-300, 2.0,
+            float("inf"), float("-inf"), float("nan")]
+
+
+def ndv_bytes(ndv, fpp):
+    return -float(ndv) * math.log(fpp) / 0.4804530139182014246671025263266649717305529515945455 / 8.0
+
+
+def fpp_for_bytes(ndv, target):
+    """A false-positive probability for which the size formula gives exactly [target] bytes (a double), found by
+    bisection over the bit patterns of fpp (the formula is monotone; neighbouring fpp move it by less than one ulp
+    of the result, so the exact value is normally attained).  None if it is not."""
+    as_bits = lambda x: struct.unpack("<Q", struct.pack("<d", x))[0]
+    as_dbl = lambda b: struct.unpack("<d", struct.pack("<Q", b))[0]
+    lo, hi = as_bits(5e-324), as_bits(1.0 - 2**-53)         # bytes(lo) is huge, bytes(hi) is about 0
+    if not (ndv_bytes(ndv, as_dbl(lo)) >= target >= ndv_bytes(ndv, as_dbl(hi))):
+        return None
+    while hi - lo > 1:
+        mid = (lo + hi) // 2
+        if ndv_bytes(ndv, as_dbl(mid)) > target:
+            lo = mid
         else:
-            ndv, fpp = rng.choice([1, 2, 10, 100, 1000, rng.randrange(1, 20000)]), rng.choice([0.5, 0.1, 0.01, 0.001, 1e-6, rng.random() * 0.98 + 0.001])
+            hi = mid
+    return as_dbl(hi) if ndv_bytes(ndv, as_dbl(hi)) == target else None
+
+
+def gen_ndv(tier, rng):
+    """create_with_ndv is not modelled (libm); the implementation alone is checked against the property's size rule,
+    the argument limits (ndv 0 / 1 / huge, fpp at 0, 1, their neighbours, tiny, NaN, infinities) and the
+    no-false-negative rule."""
+    pairs = [(n, f) for n in NDV_GRID for f in FPP_GRID]
+    pairs = [(n, f) for n, f in pairs if not (HUGE / 64 < (ndv_expect(n, f) or 0))]   # nothing between 16 GiB and 2^40
+    # the size formula landing exactly on 2^64 bytes (first value that does not fit size_t) and on its neighbours
+    for ndv in (2**63 - 1, 2**62, 2**61 + 12345):
+        f = fpp_for_bytes(ndv, 2.0**64)
+        if f is not None:
+            pairs += [(ndv, f), (ndv, math.nextafter(f, 0.0)), (ndv, math.nextafter(f, 1.0))]
+    for _ in range(60 if tier == "thorough" else 12):
+        pairs.append((rng.choice([1, 2, 10, 100, 1000, rng.randrange(1, 20000)]),
+                      rng.choice([0.5, 0.1, 0.01, 0.001, 1e-6, rng.random() * 0.98 + 0.001])))
+    out = []
+    for ndv, fpp in pairs:
+        if (ndv_expect(ndv, fpp) or 0) > (1 << 26):
+            continue                                        # allocations above 64 MiB: not worth the time
         t, p = rand_value(rng)
         out.append((ndv, fpp, "bloom cn:0:%d:%016x i:0:%s:%s q:0:%s:%s" % (
             ndv, struct.unpack("<Q", struct.pack("<d", fpp))[0], t, hexs(p), t, hexs(p))))
@@ -554,27 +598,31 @@ def check_bloom(rep, tier, rng, drv, run):
     for (ndv, fpp, li), a in zip(nd, out):
         rep.count(li)
         t = a.split()
-        valid = ndv > 0 and 0.0 < fpp < 1.0
         if a.startswith("FAULT"):
             continue
-        if not valid:
+        want = ndv_expect(ndv, fpp)
+        if want is None:
             if t[1:] != ["cn=NULL", "i=noslot", "q=noslot"]:
-                rep.violation(f"create_with_ndv({ndv}, {fpp}) must refuse invalid arguments: {a[:200]}", {"case": li, "impl": a[:500]})
+                rep.violation(f"create_with_ndv({ndv}, {fpp!r}) must return no filter (invalid arguments or a size beyond size_t): {a[:200]}",
+                              {"case": li, "impl": a[:500]})
             continue
         bad = None
         if len(t) != 4 or not t[1].startswith("cn=") or "/" not in t[1]:
             bad = "no filter"
         else:
-            nb, nblk = [int(x, 16) for x in t[1][3:].split("/")]
-            want = int(-ndv * math.log(fpp) / 0.4804530139182014246671025263266649717305529515945455 / 8.0) + 1
+            try:
+                nb, nblk = [int(x, 16) for x in t[1][3:].split("/")]
+            except ValueError:
+                nb = nblk = -1
+            lo, hi = 32 * size_to_blocks(max(0, want - 2)), 32 * size_to_blocks(want + 2)   # libm rounding: +-2 bytes
             if nb % 32 or nb < 32 or nblk * 32 != nb:
                 bad = "size is not a whole number of 32-byte blocks"
-            elif not (want - 32 <= nb <= want + 64):
-                bad = f"size {nb} far from the requested {want}"
+            elif not (lo <= nb <= hi):
+                bad = f"size {nb}, the formula -ndv*ln(fpp)/ln(2)^2/8 + 1 rounded to blocks gives {hi}"
             elif t[3] != "q=1":
                 bad = "false negative"
         if bad:
-            rep.violation(f"create_with_ndv({ndv}, {fpp}): {bad}: {a[:200]}", {"case": li, "impl": a[:500]})
+            rep.violation(f"create_with_ndv({ndv}, {fpp!r}): {bad}: {a[:200]}", {"case": li, "impl": a[:500]})
     # NULL-filter entry points and an allocation that cannot succeed (implementation only; not modelled):
     # nothing may crash, a check without a filter must answer "maybe present" (never a false negative),
     # accessors give NULL/0, write/read/merge refuse, and a live filter is left untouched
